@@ -10,9 +10,11 @@ import (
 	"bytes"
 	"crypto"
 	cryptoRand "crypto/rand"
+	"encoding"
 	"fmt"
 	"io"
 	"sort"
+	"strings"
 	"sync"
 	"testing"
 
@@ -36,7 +38,12 @@ type scheme struct {
 	unpackPK                func(b []byte) interface{}
 	unpackSK                func(b []byte) interface{}
 	public                  func(sk interface{}) []byte
-	p                       *mldsa.Params
+	// one reused object: zero keys, Unpack into / Pack from an existing object, struct assignment *dst = *src
+	newKeys    func() (pk, sk interface{})
+	unpackInto func(pk, sk interface{}, pkb, skb []byte)
+	packFrom   func(pk, sk interface{}) (pkb, skb []byte)
+	assign     func(dstPk, dstSk, srcPk, srcSk interface{})
+	p          *mldsa.Params
 }
 
 var schemes []*scheme
@@ -1063,6 +1070,197 @@ func TestC04Randomness(t *testing.T) {
 						}
 					}
 				}
+			})
+		})
+	}
+}
+
+// TestC04History: a history of operations over ONE reused *PrivateKey and ONE
+// reused *PublicKey object per scheme. Actions replace the contents of the
+// objects (Unpack / UnmarshalBinary of another generated key into the same
+// object, struct assignment from a freshly derived key or from sk.Public())
+// or only observe them (Public, Pack, MarshalBinary, Sign, Verify, Equal).
+// After every step everything observable about the objects must equal the
+// reference values of the key they currently hold: packed sk, packed
+// sk.Public(), deterministic signature of the history's message, verdicts,
+// Equal; public keys handed out earlier by Public() must keep their value.
+func TestC04History(t *testing.T) {
+	defer vlib.Done()
+	selftest(t)
+	for _, s := range schemes {
+		s := s
+		p := s.p
+		t.Run(s.name, func(t *testing.T) {
+			sub := "history/" + s.name
+			vlib.Check(t, vlib.N(12, 120), func(t *rapid.T) {
+				const nkeys = 3
+				type refKey struct {
+					seed, pkb, skb, sig []byte
+				}
+				msg := vlib.Msg(t, "msg")
+				keys := make([]*refKey, nkeys)
+				key := func(i int) *refKey { return keys[i] }
+				for i := range keys {
+					k := &refKey{seed: vlib.EdgeBytes(t, 32, fmt.Sprintf("seed%d", i))}
+					k.seed[31] = byte(i) // distinct keys
+					k.pkb, k.skb = p.KeyGen(k.seed)
+					k.sig, _ = p.Sign(k.skb, msg, nil, make([]byte, 32))
+					keys[i] = k
+				}
+				pkObj, skObj := s.newKeys()
+				curPK, curSK := -1, -1 // which key the objects hold (-1: never set)
+				type snap struct {
+					pk  interface{}
+					idx int
+				}
+				var snaps []snap
+				steps := 0
+				var trail []string
+				bad := func(key, f string, a ...interface{}) {
+					vlib.Report(t, "C04/history/"+s.name+"/"+key, fmt.Sprintf("history %v on one reused object (keys: seeds %x / %x / %x, |msg|=%d): %s", trail, keys[0].seed[:4], keys[1].seed[:4], keys[2].seed[:4], len(msg), fmt.Sprintf(f, a...)))
+				}
+				drawKey := func(t *rapid.T) int { return rapid.IntRange(0, nkeys-1).Draw(t, "key") }
+				check := func(t *rapid.T) {
+					if curSK >= 0 {
+						k := key(curSK)
+						_, skb := s.packFrom(nil, skObj)
+						mb, err := skObj.(encoding.BinaryMarshaler).MarshalBinary()
+						if !bytes.Equal(skb, k.skb) || err != nil || !bytes.Equal(mb, k.skb) {
+							bad("sk-bytes", "packed private key differs from the key last loaded (#%d) at byte %d", curSK, firstDiff(skb, k.skb))
+							return
+						}
+						pub := skObj.(crypto.Signer).Public()
+						pb, _ := pub.(encoding.BinaryMarshaler).MarshalBinary()
+						if !bytes.Equal(pb, k.pkb) {
+							bad("Public", "sk.Public() differs from the public key of the key last loaded (#%d) at byte %d (rho part: bytes 0..31)", curSK, firstDiff(pb, k.pkb))
+							return
+						}
+						sig, err := s.signTo(skObj, msg, nil)
+						if err != nil || !bytes.Equal(sig, k.sig) {
+							bad("sign", "signature differs from the specification for key #%d at byte %d (err=%v)", curSK, firstDiff(sig, k.sig), err)
+							return
+						}
+						if !s.verify(pub, msg, nil, sig) {
+							bad("verify-under-Public", "signature of sk rejected under sk.Public() (key #%d)", curSK)
+							return
+						}
+						fresh := s.unpackSK(k.skb)
+						other := s.unpackSK(key((curSK + 1) % nkeys).skb)
+						if !skObj.(sign.PrivateKey).Equal(fresh) || !fresh.(sign.PrivateKey).Equal(skObj) || skObj.(sign.PrivateKey).Equal(other) {
+							bad("sk-Equal", "Equal disagrees with the key contents (key #%d)", curSK)
+							return
+						}
+					}
+					if curPK >= 0 {
+						k := key(curPK)
+						pkb, _ := s.packFrom(pkObj, nil)
+						mb, err := pkObj.(encoding.BinaryMarshaler).MarshalBinary()
+						if !bytes.Equal(pkb, k.pkb) || err != nil || !bytes.Equal(mb, k.pkb) {
+							bad("pk-bytes", "packed public key differs from the key last loaded (#%d) at byte %d", curPK, firstDiff(pkb, k.pkb))
+							return
+						}
+						o := key((curPK + 1) % nkeys)
+						if !s.verify(pkObj, msg, nil, k.sig) || s.verify(pkObj, msg, nil, o.sig) {
+							bad("pk-verify", "verdicts under the reused public key object do not match key #%d", curPK)
+							return
+						}
+						if !pkObj.(sign.PublicKey).Equal(s.unpackPK(k.pkb)) || pkObj.(sign.PublicKey).Equal(s.unpackPK(o.pkb)) {
+							bad("pk-Equal", "Equal disagrees with the key contents (key #%d)", curPK)
+							return
+						}
+					}
+					for _, sn := range snaps {
+						pb, _ := sn.pk.(encoding.BinaryMarshaler).MarshalBinary()
+						if !bytes.Equal(pb, key(sn.idx).pkb) || !s.verify(sn.pk, msg, nil, key(sn.idx).sig) {
+							bad("Public-snapshot", "a public key returned earlier by Public() (key #%d) changed after the private key object was reused", sn.idx)
+							return
+						}
+					}
+				}
+				step := func(name string, changed bool) {
+					steps++
+					trail = append(trail, name)
+					vlib.Eval(sub)
+					vlib.Class(sub, "action="+strings.SplitN(name, "(", 2)[0])
+					if changed && steps > 1 {
+						vlib.NonTrivial(sub, "object-reused", []byte(strings.Join(trail, ",")), keys[0].seed, keys[1].seed, keys[2].seed, msg)
+					}
+				}
+				t.Repeat(map[string]func(*rapid.T){
+					"sk.Unpack": func(t *rapid.T) {
+						i := drawKey(t)
+						s.unpackInto(nil, skObj, nil, key(i).skb)
+						curSK = i
+						step(fmt.Sprintf("sk.Unpack(#%d)", i), true)
+					},
+					"sk.UnmarshalBinary": func(t *rapid.T) {
+						i := drawKey(t)
+						if err := skObj.(encoding.BinaryUnmarshaler).UnmarshalBinary(key(i).skb); err != nil {
+							bad("sk-UnmarshalBinary", "error %v", err)
+						}
+						curSK = i
+						step(fmt.Sprintf("sk.UnmarshalBinary(#%d)", i), true)
+					},
+					"sk=derived": func(t *rapid.T) {
+						i := drawKey(t)
+						_, dsk, _, _ := s.derive(key(i).seed)
+						s.assign(nil, skObj, nil, dsk)
+						curSK = i
+						step(fmt.Sprintf("*sk=NewKeyFromSeed(#%d)", i), true)
+					},
+					"sk.Public": func(t *rapid.T) {
+						if curSK < 0 {
+							return
+						}
+						pub := skObj.(crypto.Signer).Public()
+						if len(snaps) < 3 {
+							snaps = append(snaps, snap{pub, curSK})
+						}
+						step("sk.Public()", false)
+					},
+					"sk.Sign": func(t *rapid.T) {
+						if curSK < 0 {
+							return
+						}
+						m2 := vlib.Msg(t, "m2")
+						sig, err := s.signTo(skObj, m2, nil)
+						want, _ := p.Sign(key(curSK).skb, m2, nil, make([]byte, 32))
+						if err != nil || !bytes.Equal(sig, want) {
+							bad("sign", "signature of a second message differs for key #%d", curSK)
+						}
+						step("sk.Sign()", false)
+					},
+					"pk.Unpack": func(t *rapid.T) {
+						i := drawKey(t)
+						s.unpackInto(pkObj, nil, key(i).pkb, nil)
+						curPK = i
+						step(fmt.Sprintf("pk.Unpack(#%d)", i), true)
+					},
+					"pk.UnmarshalBinary": func(t *rapid.T) {
+						i := drawKey(t)
+						if err := pkObj.(encoding.BinaryUnmarshaler).UnmarshalBinary(key(i).pkb); err != nil {
+							bad("pk-UnmarshalBinary", "error %v", err)
+						}
+						curPK = i
+						step(fmt.Sprintf("pk.UnmarshalBinary(#%d)", i), true)
+					},
+					"pk=derived": func(t *rapid.T) {
+						i := drawKey(t)
+						dpk, _, _, _ := s.derive(key(i).seed)
+						s.assign(pkObj, nil, dpk, nil)
+						curPK = i
+						step(fmt.Sprintf("*pk=NewKeyFromSeed(#%d)", i), true)
+					},
+					"pk=sk.Public": func(t *rapid.T) {
+						if curSK < 0 {
+							return
+						}
+						s.assign(pkObj, nil, skObj.(crypto.Signer).Public(), nil)
+						curPK = curSK
+						step("*pk=*sk.Public()", true)
+					},
+					"": check,
+				})
 			})
 		})
 	}
